@@ -1,4 +1,5 @@
 import Chain33Model.Proofs.C11
+import Chain33Model.Proofs.C11Local
 /-!
 C11 — failed transactions leave only their fee behind.  Property theorems only.
 
@@ -200,71 +201,28 @@ theorem group_all_or_fee (env : Env) (hfr : env.forkExecRollback = true) (h0 : e
         exact this.runS_eq ops
 
 
-/-! ### local data -/
+/-! ### local data
 
-/-- the mechanism of finding S-C11, as a fact about the model of `executor.LocalDB`:
-`Rollback` keeps the buffered writes. -/
-theorem localdb_rollback_keeps_kvs (l : LocalDB) : l.rollback.kvs = l.kvs := by
-  unfold LocalDB.rollback LocalDB.resetTx
-  cases l.hasbegin <;> rfl
+`LocalDB.LEq` (Proofs/C11Local) is observational equivalence of two `executor.LocalDB`s between
+transactions (equal up to the read cache, both satisfying the coherence invariant `LocalDB.Inv`);
+`LEq.runL_eq` shows it is a bisimulation for every later sequence of local transactions `runL`
+(Begin; any Get / Set / List / StartTx / access-flag changes; Commit or Rollback).
+`LocalDB.Inv` is the invariant block execution maintains: `initSt_linv`, `execUnit_linv`. -/
 
-def laterSame (a b : Option (List Receipt × List (List Obs))) : Prop :=
-  match a, b with
-  | some (rs, obs), some (rs', obs') => rs.tail = rs'.tail ∧ obs.tail = obs'.tail
-  | some _, none => False
-  | none, _ => True
-
-def headFailed (a : Option (List Receipt × List (List Obs))) : Prop :=
-  match a with
-  | some (r :: _, _) => r.failed = true
-  | _ => False
-
-instance (a b : Option (List Receipt × List (List Obs))) : Decidable (laterSame a b) := by
-  unfold laterSame; split <;> infer_instance
-instance (a : Option (List Receipt × List (List Obs))) : Decidable (headFailed a) := by
-  unfold headFailed; split <;> infer_instance
-
-/-- The property text for local data, at block level: if the first transaction of a block fails, every
-later transaction produces the same receipt and observes the same state **and local** reads as in the
-block where that transaction only paid its fee. -/
-def LocalRollbackExact : Prop :=
-  ∀ (env : Env) (store : List (Bytes × Val)) (main : List (Bytes × Bytes)) (t : Tx) (post : List TxUnit),
-    env.forkExecRollback = true →
-    headFailed (runBlock env store main (.single t :: post)) →
-    laterSame (runBlock env store main (.single t :: post)) (runBlock env store main (.single (feeOnly t) :: post))
-
-namespace Witness
-/-- "LODB-vfb-k" -/
-def kB : Bytes := [76, 79, 68, 66, 45, 118, 102, 98, 45, 107]
-def env0 : Env := { cfg := { isPara := false, title := [], forkExecKey := true },
-                    allowUser := synthAllowUser, registry := fullRegistry }
-/-- a vfb (ExecLocalSameTime) transaction whose ExecLocal writes a local key directly, then fails -/
-def t1 : Tx := { acctKey := [1], fee := 1, execer := [118, 102, 98], execOps := [], localOps := [.hidL kB [7], .fail] }
-/-- a later vfb transaction listing the prefix -/
-def t2 : Tx := { acctKey := [1], fee := 1, execer := [118, 102, 98], execOps := [.listL kB], localOps := [] }
-def store0 : List (Bytes × Val) := [([1], .acct 10)]
-end Witness
-
-/-- **S-C11**: the full statement is false of the model (and of the code: the same block is replayed on
-the real executor by corpus/C11/s-c11.ops): `LocalDB.Rollback` does not drop the buffered `kvs`, the
-next `save()` flushes them, and the later transaction lists the failed transaction's write. -/
-theorem local_rollback_exact_full_false : ¬ LocalRollbackExact := by
-  intro h
-  exact absurd (h Witness.env0 Witness.store0 [] Witness.t1 [.single Witness.t2] rfl (by decide)) (by decide)
-
-/-- **local_rollback_exact_partial** — added hypothesis: the failing transaction runs on a driver that is
-*not* ExecLocalSameTime (its ExecLocal runs only when the block is added) and ForkLocalDBAccess is
-active.  Then the LocalDB after the failed transaction is *identical* (all caches, the buffered
-writes and the remote layered store) to the LocalDB after the fee-only transaction. -/
-theorem local_rollback_exact_partial (env : Env) (hfr : env.forkExecRollback = true)
-    (hfa : env.forkLocalDBAccess = true)
-    (st : St) (tx : Tx) (d : Drv) (hd : loadDriver env tx.execer = some d) (hs : d.sameTime = false)
-    (r : Receipt) (obs : List Obs) (st' : St)
+open LocalDB in
+/-- **local_rollback_exact** (repaired `LocalDB.Rollback`, /repo c51e8d4) — after a transaction that
+fails during block execution, every later local transaction — any later sequence of LocalDB reads,
+writes and listings — observes exactly what it observes in the run where the transaction only paid
+its fee.  `hinv`/`hidle`: the LocalDB is in a state block execution can reach between transactions
+(they hold initially and after every unit: `initSt_linv`, `execUnit_linv`). -/
+theorem local_rollback_exact (env : Env) (hfr : env.forkExecRollback = true)
+    (st : St) (hinv : Inv st.ldb) (hidle : st.ldb.intx = false)
+    (tx : Tx) (r : Receipt) (obs : List Obs) (st' : St)
     (h : execTx env st tx = .done [r] [obs] st') (hf : r.failed = true) :
-    ∃ rF stF, execTx env st (feeOnly tx) = .done [rF] [[]] stF ∧ st'.ldb = stF.ldb := by
+    ∃ rF stF, execTx env st (feeOnly tx) = .done [rF] [[]] stF ∧
+      ∀ ts, runL st'.ldb ts = runL stF.ldb ts := by
   have he : (feeOnly tx).execer = tx.execer := rfl
   have hfee : execFee env st (feeOnly tx) = execFee env st tx := rfl
-  have hsame : isExecLocalSameTime env tx.execer = false := by unfold isExecLocalSameTime; rw [hd]; exact hs
   unfold execTx at h ⊢
   rw [he, hfee]
   split at h
@@ -272,7 +230,7 @@ theorem local_rollback_exact_partial (env : Env) (hfr : env.forkExecRollback = t
     simp only [hname, if_true]
     injection h with h1 h2 h3
     subst h3
-    exact ⟨_, _, rfl, rfl⟩
+    exact ⟨_, _, rfl, fun _ => rfl⟩
   · rename_i hname
     simp only [hname, if_false]
     cases hfe : execFee env st tx with
@@ -282,10 +240,12 @@ theorem local_rollback_exact_partial (env : Env) (hfr : env.forkExecRollback = t
       simp only at h ⊢
       injection h with h1 h2 h3
       subst h3
-      exact ⟨_, _, rfl, rfl⟩
+      exact ⟨_, _, rfl, fun _ => rfl⟩
     | ok feelog st1 =>
       rw [hfe] at h
       simp only at h ⊢
+      have hl := execFee_ldb env st tx feelog st1 hfe
+      have hb := begin_txf env hfr st1 (by rw [hl]; exact hinv) (by rw [hl]; exact hidle)
       cases hA : execTxOne env (st1.begin env) feelog tx with
       | blockPanic => rw [hA] at h; cases h
       | ok r2 st2 obs2 =>
@@ -301,18 +261,38 @@ theorem local_rollback_exact_partial (env : Env) (hfr : env.forkExecRollback = t
         simp only at h
         injection h with h1 _ h3
         subst h3
-        obtain ⟨stX, hB⟩ := execTxOne_feeOnly env (st1.begin env) feelog tx d hd
-        rw [hB]
-        simp only
-        refine ⟨_, _, rfl, ?_⟩
-        have e2 := execTxOne_failed_state_ordinary env _ feelog tx _ _ _ hsame hA
-        have eX := execTxOne_failed_state_ordinary env _ feelog (feeOnly tx) _ _ _ hsame hB
-        have l2 := execPhase_ldb_ordinary env (st1.begin env).startTx tx d hd hs hfa
-        have lX := execPhase_ldb_ordinary env (st1.begin env).startTx (feeOnly tx) d hd hs hfa
-        have : st2.ldb = stX.ldb := by rw [e2, eX, l2, lX]
-        simp only [St.rollback, hfr, if_true, this]
+        cases hd : loadDriver env tx.execer with
+        | none =>
+          obtain ⟨_, _, hok⟩ := execTxOne_none_ok env (st1.begin env) feelog tx hd
+          rw [hok] at hA; cases hA
+        | some d =>
+          obtain ⟨stX, hB⟩ := execTxOne_feeOnly env (st1.begin env) feelog tx d hd
+          rw [hB]
+          simp only
+          refine ⟨_, _, rfl, fun ts => ?_⟩
+          have tA := execTxOne_txf env (st1.begin env) feelog tx _ _ _ hb
+          have tB := execTxOne_txf env (st1.begin env) feelog (feeOnly tx) _ _ _ hb
+          rw [hA] at tA
+          rw [hB, he] at tB
+          obtain ⟨ia, xa, ea⟩ := TxF.rollback tA
+          obtain ⟨ib, _, eb⟩ := TxF.rollback tB
+          have hra : (st2.rollback env).ldb = st2.ldb.rollback := by simp [St.rollback, hfr]
+          have hrb : (stX.rollback env).ldb = stX.ldb.rollback := by simp [St.rollback, hfr]
+          rw [hra, hrb]
+          exact LEq.runL_eq ⟨by rw [ea, eb], ia, ib⟩ xa ts
 
-/-- non-vacuity of `local_rollback_exact_partial`: a vfa (ordinary driver) transaction that fails. -/
-example : ∃ d, loadDriver Witness.env0 [118, 102, 97] = some d ∧ d.sameTime = false := ⟨_, rfl, rfl⟩
+/-- non-vacuity of the hypotheses of `local_rollback_exact`: the initial state of every block. -/
+example : LocalDB.Inv (initSt [([1], .acct 10)] []).ldb ∧ (initSt [([1], .acct 10)] []).ldb.intx = false :=
+  initSt_linv _ _
+
+/-- regression witness for the pre-repair `Rollback` (`LocalDB.rollbackOld`, finding S-C11, repaired in
+/repo c51e8d4): it kept the buffered writes, so a write of a rolled back transaction reached the
+remote store with the next transaction's commit.  The repaired `rollback` does not. -/
+theorem rollbackOld_leaks_regression :
+    let l : LocalDB := {}
+    let k : Bytes := [107]
+    (((l.begin.set k [7]).1.rollbackOld.begin.commit).remote.cview k = some [7]) ∧
+    (((l.begin.set k [7]).1.rollback.begin.commit).remote.cview k = none) := by
+  decide
 
 end C11
